@@ -88,6 +88,10 @@ func c07Feed(c *vf.Case, input []byte, cuts []int, max int, label string) string
 	dst := sonic.NewByteBuffer()
 	codec := websocket.NewFrameCodec(src, dst, max)
 	fed, consumed := 0, 0
+	commitAll := c.Rng.Bool()
+	if commitAll {
+		c.Count("feeds_with_everything_committed_up_front", 1)
+	}
 	pendingSize := 0 // size of the frame returned by the previous Decode (consumed lazily by the next one)
 	outcome := ""
 	bounds := append(append([]int(nil), cuts...), len(input))
@@ -100,6 +104,11 @@ func c07Feed(c *vf.Case, input []byte, cuts []int, max int, label string) string
 		prev = end
 		if len(chunk) > 0 {
 			_, _ = src.Write(chunk)
+			if commitAll {
+				// the caller's side of the ByteBuffer workflow: what was written is committed (readable) before the
+				// decoder looks at it, so the read area may hold several frames at once
+				src.Commit(len(chunk))
+			}
 			fed += len(chunk)
 		}
 		for iter := 0; ; iter++ {
